@@ -19,7 +19,7 @@ BUDGET = {"quick": 700, "thorough": 20000}
 SOFT = {"quick": 50.0, "thorough": 900.0}
 REQUIRED = ["map:translate", "map:rotate", "map:scale", "map:mirror", "via:method", "via:transform-list", "origin:none",
             "origin:given", "judged:vertices", "judged:edges", "judged:copy-independent", "judged:arguments-unchanged",
-            "judged:direct-curve", "entity:shape", "entity:operation", "entity:sketch", "entity:stack", "composition:2+"]
+            "judged:direct-curve", "judged:constructor-arrays", "entity:shape", "entity:operation", "entity:sketch", "entity:stack", "composition:2+"]
 MIN_KEYS = 80
 RULE = (
     "entity zoo (Point, Face / Loft carrying each edge kind, Box / Extrude / Revolve / Wedge, curves (discrete, linear / spline "
@@ -94,6 +94,15 @@ def gen_case(ctx):
 
 
 # ------------------------------------------------------------------------------------------------ entities
+CTOR_ARRAYS = []  # float ndarrays handed to constructors (spline / curve points): (array, snapshot)
+
+
+def _reg(points):
+    a = np.array(points, dtype=float)
+    CTOR_ARRAYS.append((a, a.copy()))
+    return a
+
+
 def frame_from(rng):
     fr = geom.orthonormal_frame(rng)
     o = np.array(geom.rand_vec(rng, -3, 3))
@@ -125,6 +134,10 @@ def make_entity(e, cb):
                 c1, c2 = i, i + 4
             d = c07.make_data(rng, kind, pts[c1], pts[c2], centre)
             d["_P"], d["_Q"] = pts[c1], pts[c2]
+            if "points" in d:
+                d["points"] = _reg(d["points"])  # the user's own float array
+            if "interp_pts" in d:
+                d["interp_pts"] = _reg(d["interp_pts"])
             obj = c07.edge_object(d, cb, False)
             if where == "b":
                 bottom_edges[i] = obj
@@ -211,6 +224,7 @@ def make_entity(e, cb):
     if g == "curve":
         k = e["kind"]
         pts = [list(o + fr[0] * t * 3 + fr[1] * math.sin(t * 2.5) + fr[2] * 0.4 * t * t) for t in [0, 0.1, 0.25, 0.5, 0.6, 0.85, 1.0]]
+        pts = _reg(pts)
         if k == "discrete":
             return cb.DiscreteCurve(pts), None
         if k == "linear":
@@ -410,6 +424,7 @@ def run_case(ctx, case):
     ctx.sample({"entity": e, "maps": maps, "via": via})
     tag = f"{g}:{name}"
 
+    del CTOR_ARRAYS[:]
     X, extra = make_entity(e, cb)
     Y, _ = make_entity(e, cb)
     # the geometric map, step by step (default origins = centre before each step)
@@ -456,6 +471,15 @@ def run_case(ctx, case):
             ctx.violation(f"argument-array-modified:{'+'.join(sorted(set(mk.split(':')[0] for mk in mkinds)))}:{g}",
                           f"{tag} {mkinds} via {via}: array {before} became {a}")
             return
+
+    for a, before in CTOR_ARRAYS:
+        if not np.array_equal(a, before):
+            ctx.count("judged:constructor-arrays")
+            ctx.violation(f"constructor-array-modified-by-transform:{g}:{'+'.join(sorted(set(mk.split(':')[0] for mk in mkinds)))}",
+                          f"{tag} {mkinds} via {via}: the float array the entity was built from changed by {np.max(np.abs(a - before))}")
+            return
+    if CTOR_ARRAYS:
+        ctx.count("judged:constructor-arrays")
 
     if g == "point":
         d = float(np.linalg.norm(Y.position - A(X.position)))
